@@ -25,7 +25,9 @@ Transcribed (the code that exists, its quirks included):
                            either warning + removal or renaming / `replace` / `_old_atomname` /
                            residue-wide `modifications` (on the nodes of the residue that still exist:
                            `n_idxs - removed`); this is the state after the repairs F-C14-2, F-C14-3 and F-C14-4
-                           (`identify_ptms` reads the `annotated` snapshot of the input, not the live labels).
+                           (`identify_ptms` reads the `annotated` snapshot of the input, not the live labels) and
+                           F-C14-5 (the removal branch removes only atoms flagged `PTM_atom`; the warning still
+                           names every atom of the groups).
 
 Attribute values are strings or `None` (`Option String`); `graph`, `ptm.match` and log records
 below warning level are not modelled.
@@ -374,6 +376,12 @@ def labelAtom (i : Nat) (a : Atom) : Atom :=
 def applyOne (mods : List Modif) (nIdxs : List Int) (atoms : List Atom) (c : Nat × Placement) : List Atom :=
   (applyPlacement (modAt mods c.1) c.2 atoms).map fun a => if nIdxs.contains a.key then labelAtom c.1 a else a
 
+/-- `molecule.nodes[idx].get('PTM_atom', False)` -/
+def isFlagged (m : Mol) (k : Int) : Bool :=
+  match m.atom? k with
+  | some a => a.ptm
+  | none => false
+
 def removeAtoms (m : Mol) (rm : List Int) : Mol :=
   { atoms := m.atoms.filter (fun a => !rm.contains a.key),
     edges := m.edges.filter (fun e => !rm.contains e.1 && !rm.contains e.2) }
@@ -395,7 +403,10 @@ def step (mods : List Modif) (orig : List Atom) (s : St) (key : List Int) (group
   match identify res edges mods annot groups frags with
   | .outOfFuel => .outOfFuel
   | .keyError rm =>
-    .done { mol := removeAtoms s.mol rm, removed := s.removed ++ rm, warnings := s.warnings ++ [rm],
+    /- the warning names every atom of the groups; only the atoms flagged `PTM_atom` are removed
+    (atoms that merely carry an annotation are known to the residue template: F-C14-5) -/
+    let rmF := rm.filter (isFlagged s.mol)
+    .done { mol := removeAtoms s.mol rmF, removed := s.removed ++ rmF, warnings := s.warnings ++ [rm],
             log := s.log ++ [{ key := key, allowedMods := al, candsOk := ok, result := none }] }
   | .ok used cov =>
     .done { s with mol := { s.mol with atoms := (used ++ cov).foldl (applyOne mods nIdxs) s.mol.atoms },
